@@ -403,6 +403,8 @@ class Shimmed:
 
 
 def expr_of(x):
+    if isinstance(x, _np.ndarray) and x.ndim == 0:
+        x = x.item()
     if isinstance(x, S):
         return x.e
     c = _conv(x)
